@@ -17,6 +17,7 @@ Kinds (FORMAT.md, table "kind"):
     u256   32         basic                          1
     h256   32         composite (root = the bytes)   none
     pair   16         composite (container a,b:u64)  none
+    quad   32         composite (container a,b,c,d:u64)  none
     var    variable   composite (List[u8,4])         none
 
 Run `python3 ssz_ref.py` for the self-test.
@@ -38,6 +39,7 @@ SIZE = {
     "u256": 32,
     "h256": 32,
     "pair": 16,
+    "quad": 32,
     "var": None,
     "nl": None,
     "fu64": 8,
@@ -53,6 +55,7 @@ PACKING = {
     "u256": 1,
     "h256": None,
     "pair": None,
+    "quad": None,
     "var": None,
     "nl": None,
     "fu64": 4,
@@ -143,6 +146,9 @@ def element_root(kind, value):
         a = value[0:8] + bytes(24)
         b = value[8:16] + bytes(24)
         return hash_pair(a, b)
+    if kind == "quad":
+        f = [value[i : i + 8] + bytes(24) for i in (0, 8, 16, 24)]
+        return hash_pair(hash_pair(f[0], f[1]), hash_pair(f[2], f[3]))
     if kind == "var":
         data_root = value + bytes(BYTES_PER_CHUNK - len(value))
         return hash_pair(data_root, uint_to_chunk(len(value)))
@@ -419,6 +425,8 @@ def self_test():
     # Defaults and validity.
     assert default_element("u64") == bytes(8)
     assert default_element("pair") == bytes(16)
+    q = _u(1, 8) + _u(2, 8) + _u(3, 8) + _u(4, 8)
+    assert element_root("quad", q) == sha(sha(_u(1, 32) + _u(2, 32)) + sha(_u(3, 32) + _u(4, 32)))
     assert default_element("var") == b""
     assert valid_element("u64", bytes(8)) and not valid_element("u64", bytes(7))
     assert valid_element("var", b"1234") and not valid_element("var", b"12345")
@@ -456,6 +464,8 @@ def self_test():
     for kind in KINDS:
         if kind == "var":
             samples = [b"", b"\x01", b"\x01\x02\x03\x04"]
+        elif kind == "nl":
+            samples = [b"", bytes(8), bytes(range(16))]
         else:
             samples = [bytes([i + 1]) * SIZE[kind] for i in range(3)]
         assert deserialize_list(kind, 3, serialize(kind, samples)) == samples
